@@ -860,7 +860,9 @@ func historyLen(t *Tape) int {
 // genHistory draws n healthy exchanges for sc's client (each reply is delivered whole and at once unless slow is set,
 // then every reply takes a few milliseconds to come). Function 23 is left out: the library's expected length for it is
 // a known finding of C07 and every such call would end in a timeout. The exchanges share sc's client configuration.
-func genHistory(rc *RunCtx, sc *C1, n int, slow bool) []*C1 { return genHistoryFrag(rc, sc, n, slow, false) }
+func genHistory(rc *RunCtx, sc *C1, n int, slow bool) []*C1 {
+	return genHistoryFrag(rc, sc, n, slow, false)
+}
 
 // genHistoryFrag: with frag set the replies of the history arrive cut into reads like any reply under test (for
 // properties that do not depend on those exchanges succeeding).
